@@ -21,18 +21,21 @@ fn model_exe() -> std::path::PathBuf {
 
 /// encode (version, ops) lists with the Coq reference encoder (extracted model, `encode` mode)
 fn encode_all(reqs: &[(u64, Vec<Op>)]) -> Vec<Vec<u8>> {
-    let mut child = std::process::Command::new(model_exe())
-        .stdin(std::process::Stdio::piped())
-        .stdout(std::process::Stdio::piped())
-        .spawn()
-        .expect("model_core not built");
+    // requests go through a file: writing a large batch into the child's stdin while it fills its stdout would deadlock
+    let dir = exe_root().join("harness/target/c10-enc");
+    let _ = std::fs::create_dir_all(&dir);
+    let inp = dir.join(format!("req-{}.txt", std::process::id()));
     {
-        let mut stdin = child.stdin.take().unwrap();
+        let mut f = std::io::BufWriter::new(std::fs::File::create(&inp).unwrap());
         for (v, ops) in reqs {
-            writeln!(stdin, "encode {} {}", v, fmt_ops(ops)).unwrap();
+            writeln!(f, "encode {} {}", v, fmt_ops(ops)).unwrap();
         }
     }
-    let out = child.wait_with_output().unwrap();
+    let out = std::process::Command::new(model_exe())
+        .stdin(std::fs::File::open(&inp).unwrap())
+        .output()
+        .expect("model_core not built");
+    let _ = std::fs::remove_file(&inp);
     String::from_utf8(out.stdout).unwrap().lines().map(unhex).collect()
 }
 
@@ -141,7 +144,14 @@ impl Prop for P {
                 Err(_) => "other",
             };
             let bad_version = v == 0 || v > 3;
-            let canon = if (8..32).contains(&l) && bad_version && (class == "version" || class == "format") { "version-or-format" } else { class };
+            let long_enough = !bad_version && l >= if v >= 3 { 36 } else { 32 };
+            let canon = if (8..32).contains(&l) && bad_version && (class == "version" || class == "format") {
+                "version-or-format"
+            } else if long_enough && (class == "ok" || class == "format") {
+                "ok-or-format"
+            } else {
+                class
+            };
             return format!("S:{}\tM:{}\tX:ok", canon, canon);
         }
         let rest = &case["old ".len()..];
